@@ -199,6 +199,8 @@ enum Layout {
     F,
     RowStrided,
     Strided,
+    /// rows stored back to front behind a negative row stride (contiguous rows, contiguous buffer)
+    RowsReversed,
 }
 
 /// run `g` on a view of `x` with the requested memory layout (junk in the unused cells)
@@ -221,6 +223,10 @@ fn with_layout<F: Float, T>(x: &Array2<F>, l: Layout, g: impl FnOnce(ArrayView2<
             let mut p = Array2::from_elem((2 * n + 1, 2 * d + 1), junk);
             p.slice_mut(s![..2 * n;2, ..2 * d;2]).assign(x);
             g(p.slice(s![..2 * n;2, ..2 * d;2]))
+        }
+        Layout::RowsReversed => {
+            let back = Array2::from_shape_fn((n, d), |(i, j)| x[[n - 1 - i, j]]);
+            g(back.slice(s![..;-1, ..]))
         }
     }
 }
@@ -579,7 +585,7 @@ fn dense_case<F: Float>(c: &mut Case) -> Outcome {
     };
     let d = if c.idx % 23 == 5 { 0 } else { c.rng.gen_range(1..=6) };
     let style = STYLES[(c.idx as usize / 2) % STYLES.len()];
-    let layout = [Layout::C, Layout::F, Layout::RowStrided, Layout::Strided][c.rng.gen_range(0..4)];
+    let layout = [Layout::C, Layout::F, Layout::RowStrided, Layout::Strided, Layout::RowsReversed][c.rng.gen_range(0..5)];
     let x = gen_records(&mut c.rng, n, d, style);
     let (xf, rows) = cast_records::<F>(&x);
     let km = gen_method::<F>(&mut c.rng, &rows).rounded::<F>();
@@ -704,8 +710,8 @@ fn sparse_case<F: Float>(c: &mut Case) -> Outcome {
     let (xf, rows) = cast_records::<F>(&x);
     let km = gen_method::<F>(&mut c.rng, &rows).rounded::<F>();
     let (rhs, _) = rhs_for::<F>(&mut c.rng, n);
-    let layout_tree = [Layout::C, Layout::RowStrided][c.rng.gen_range(0..2)];
-    let layout_any = [Layout::C, Layout::F, Layout::RowStrided, Layout::Strided][c.rng.gen_range(0..4)];
+    let layout_tree = [Layout::C, Layout::RowStrided, Layout::RowsReversed][c.rng.gen_range(0..3)];
+    let layout_any = [Layout::C, Layout::F, Layout::RowStrided, Layout::Strided, Layout::RowsReversed][c.rng.gen_range(0..5)];
     c.note("n", json!(n));
     c.note("d", json!(d));
     c.note("style", json!(style));
